@@ -29,6 +29,12 @@ CHECKS = {
  "C17": dict(level="model_checking", tech="TLA+ facet spec Cookie.tla (RFC 7873 client machine) + TLC-generated server-behaviour/time/source-address histories on the real library + TLC trace validation",
              text="The per-server cookie state machine (client cookie constant per server and source address until rotation, latest server cookie echoed, never over TCP, cookie-less replies ignored while SUPPORTED until 120 s regression, at most three BADCOOKIE resends then TCP, unsupported servers used without cookie for 120 s) is an explicit TLA+ spec; the COOKIE option of every transmitted frame and the delivery of every reply of every generated history (all server behaviours, source changes, advances across 120 s / 1 day including whole-second instants, IPv4 and IPv6) are validated by TLC.",
              note="Trusted: TLC, harness frame decoding (uses the library's own parser for plumbing), virtual clock and random hooks.", ref="4/C17"),
+ "C12": dict(level="model_checking", tech="TLA+ facet spec Search.tla (candidate list per resolv.conf(5) + walk rule) + TLC-enumerated name/ndots/domain-list/flag/outcome histories on the real library + TLC trace validation",
+             text="The candidate list (as-is first iff dots >= ndots, domains in order, root domain, trailing dot, NOSEARCH) and the walk (continue only after no-data/name-error, or server-failure/refused for a single label; stop at data or hard error; final no-data vs last status) are an explicit TLA+ spec; the sequence of question names the virtual server sees and the final status of every generated history (ares_search, legacy search, getaddrinfo A / A+AAAA, gethostbyname; configuration through options and through resolv.conf) are validated by TLC.",
+             note="Trusted: TLC, harness (dot counting of the input name is done by the harness). Scope: one server and one try so that every rcode is final; HOSTALIASES not exercised.", ref="4/C12"),
+ "C20": dict(level="model_checking", tech="TLA+ facet spec Stream.tla + TLC-enumerated chopping patterns (every short-write/would-block script, every chunk size and single split point, batches) on the real library + TLC trace validation",
+             text="Inbound: an answer that is complete by byte count and acceptable must be delivered before the processing call returns and never earlier, whatever the chunking; outbound: every frame the virtual server reassembles is well-formed, first transmissions arrive in request order, a partial write keeps write interest and is flushed when the socket is reported writable; a truncated UDP answer continues over TCP unless IGNTC; an empty datagram has no effect. TLC validates every recorded history against the explicit spec.",
+             note="Trusted: TLC, harness stream reassembly (length-prefix splitting) and frame decoding (library parser as plumbing).", ref="4/C20"),
 }
 NA_REASON = "check not built yet in this round (specification planned in DESIGN.md section 4); not claimed until its machinery exists"
 
